@@ -46,7 +46,7 @@ Objs    == {W} \cup Readers
 AllActs == {"write", "read", "readblock", "seek", "tell", "refresh", "close", "reopen", "delete", "tick"}
 Unknown == 0 - 1
 TsAll   == 1..(MaxTs + MaxWrites)      \* the intended design may bump a timestamp past MaxTs
-NoFile  == [ino |-> 0, off |-> 0]
+NoFile  == [ino |-> 0, off |-> 0, buf |-> <<>>]
 NoPos   == [k |-> "none", ts |-> 0, off |-> 0, cur |-> Unknown]
 
 VARIABLES
@@ -58,7 +58,8 @@ VARIABLES
   clock,        \* "now" (time(), datetime.now): may advance, stand still, step back
   lf,           \* [Objs -> Seq([ts, sz])]  self.logfiles: the object's own view of the file list
   ridx,         \* [Objs -> Nat]            self.read_idx (0-based; Len(lf) = at end)
-  rf,           \* [Objs -> [ino, off]]     self.read_file: open inode + offset; ino = 0: None
+  rf,           \* [Objs -> [ino, off, buf]] self.read_file: open inode + offset (tell()) + cells sitting in the file
+                \*                          object's read buffer; ino = 0: None
   closed,       \* [Objs -> BOOLEAN]        close() was called (write_file/read_file is False)
   wfile,        \* inode open for writing (self.write_file), 0 = None
   total,        \* self.logfiles_size of the writer
@@ -100,13 +101,23 @@ ScanLF == LET s == AscSeq(Names) IN [i \in 1..Len(s) |-> [ts |-> s[i], sz |-> Si
 RECURSIVE SumSz(_)
 SumSz(l) == IF l = <<>> THEN 0 ELSE l[1].sz + SumSz(Tail(l))
 
-(* file.read() / file.readline() at a cell offset (l.324).  readline returns up to and including the newline, i.e. to
-   the end of the run of the id found at the offset. *)
-ReadFrom(ino, off, block) ==
-  LET c == data[ino]  n == Len(c) IN
-  IF off >= n THEN <<>>
-  ELSE IF block THEN SubSeq(c, off + 1, n)
-  ELSE LET e == Min({e \in (off + 1)..n : e = n \/ c[e + 1] # c[e]}) IN SubSeq(c, off + 1, e)
+(* file.read() / file.readline() on an open file f = [ino, off, buf] (l.324).  readline returns up to and including
+   the newline, i.e. to the end of the run of the id found at the offset.  Python's buffered reader fills its buffer
+   with everything up to the end of the (small) file and serves later calls from the buffer; for an append-only inode
+   that cannot be observed (buffer \o later content = content) and the buffer is left out, but after a truncating
+   open() the buffer still holds - and delivers - the destroyed cells, so with the "overwrite" deviation it is kept. *)
+Buffered == "overwrite" \in Defects
+FirstRun(c) == LET e == Min({e \in 1..Len(c) : e = Len(c) \/ c[e + 1] # c[e]}) IN e
+ReadFrom(f, block) ==      \* -> [c: the cells returned, f: the file object afterwards]
+  LET raw  == f.off + Len(f.buf)                                 \* position of the underlying descriptor
+      cont == data[f.ino]
+      more == IF raw >= Len(cont) THEN <<>> ELSE SubSeq(cont, raw + 1, Len(cont))
+      all  == f.buf \o more
+  IN IF block \/ all = <<>> THEN [c |-> all, f |-> [f EXCEPT !.off = @ + Len(all), !.buf = <<>>]]
+     ELSE LET src  == IF f.buf # <<>> THEN f.buf ELSE more       \* a whole line is in the buffer, or one raw read
+              e    == FirstRun(src)
+              rest == IF Buffered THEN SubSeq(src, e + 1, Len(src)) ELSE <<>>
+          IN [c |-> SubSeq(src, 1, e), f |-> [f EXCEPT !.off = @ + e, !.buf = rest]]
 
 (* refresh_logfiles (l.548-591) for a list l, read index S, open file f. *)
 RefreshOf(l, S, f) ==
@@ -128,7 +139,7 @@ RLoop(l, S, f, auto, block) ==
   LET n == Len(l) IN
   IF f.ino = 0 THEN
     IF dir[l[S + 1].ts] # 0
-    THEN RLoop(l, S, [ino |-> dir[l[S + 1].ts], off |-> 0], auto, block)          \* l.305 open by NAME
+    THEN RLoop(l, S, [ino |-> dir[l[S + 1].ts], off |-> 0, buf |-> <<>>], auto, block)          \* l.305 open by NAME
     ELSE IF S + 1 >= n                                                            \* l.307-310 file is gone: skip it
          THEN IF ~auto THEN Res(l, S + 1, NoFile, <<>>)                           \* l.311
               ELSE LET r == RefreshOf(l, S + 1, NoFile) IN                        \* l.316
@@ -136,8 +147,8 @@ RLoop(l, S, f, auto, block) ==
                    ELSE RLoop(r.lf, r.ridx, r.rf, FALSE, block)                   \* l.321
          ELSE RLoop(l, S + 1, NoFile, auto, block)
   ELSE
-    LET c == ReadFrom(f.ino, f.off, block) IN
-    IF c # <<>> THEN Res(l, S, [f EXCEPT !.off = @ + Len(c)], c)                  \* l.324-325
+    LET rd == ReadFrom(f, block)  c == rd.c IN
+    IF c # <<>> THEN Res(l, S, rd.f, c)                                           \* l.324-325
     ELSE IF S + 1 >= n                                                            \* l.327 end of the last file
          THEN IF ~auto THEN Res(l, S, f, <<>>)                                    \* l.328 file stays open
               ELSE LET r == RefreshOf(l, S, f)                                    \* l.333
@@ -167,14 +178,14 @@ PruneCut(l, j, acc) ==       \* j: index (1-based) of the entry looked at, going
 PruneOf(l) == IF l = <<>> THEN [cut |-> 0, total |-> 0] ELSE PruneCut(l, Len(l) - 1, Last(l).sz)   \* l.503-504
 
 (* ---------------------------------------------------------------------------------------------------------------- *)
-Init ==
-  /\ fsz \in FileSizes /\ tsz \in TotalSizes
+InitRest ==
   /\ dir = [t \in TsAll |-> 0] /\ data = [i \in 1..MaxWrites |-> <<>>] /\ nino = 0 /\ recsz = <<>>
   /\ clock = 1
   /\ lf = [o \in Objs |-> <<>>] /\ ridx = [o \in Objs |-> 0] /\ rf = [o \in Objs |-> NoFile]
   /\ closed = [o \in Objs |-> FALSE] /\ wfile = 0 /\ total = 0 /\ pos = [o \in Objs |-> NoPos]
   /\ last = [o \in Objs |-> Unknown] /\ destroyed = {} /\ taintf = {} /\ maxused = 0 /\ ndel = 0 /\ nreo = 0 /\ npos = 0
   /\ ev = NoEv
+Init == fsz \in FileSizes /\ tsz \in TotalSizes /\ InitRest
 
 (* write(data, timestamp) (l.180-258).  t = 0: no timestamp given, the file name comes from the clock (l.477). *)
 Write(sz, t) ==
@@ -251,7 +262,7 @@ SeekTo(o, p) ==
        IF cand = {} THEN [ridx |-> n, rf |-> NoFile]                              \* l.435
        ELSE LET i == Min(cand) IN
             IF l[i].ts > p.ts THEN [ridx |-> i - 1, rf |-> NoFile]                \* l.418 next existing file
-            ELSE IF dir[p.ts] # 0 THEN [ridx |-> i - 1, rf |-> [ino |-> dir[p.ts], off |-> p.off]]   \* l.423-431
+            ELSE IF dir[p.ts] # 0 THEN [ridx |-> i - 1, rf |-> [ino |-> dir[p.ts], off |-> p.off, buf |-> <<>>]]   \* l.423-431
                  ELSE [ridx |-> i, rf |-> NoFile]                                 \* l.424 vanished: the one after
 Seek(o, how) ==    \* how: 0 = ('start', 0), 1 = ('end', 0), 2 = the saved position
   /\ ~closed[o]
